@@ -591,6 +591,9 @@ func (s *Sim) ReleaseSQL() {
 	s.sqlHeld = nil
 }
 
+// PendingMap: the map (its address) this task is parked in front of an access to, 0 if none.
+func (t *Task) PendingMap() uintptr { return t.pendMap }
+
 // MapAccess (R15) stands before a statement that reads (write=false) or writes / deletes from
 // (write=true) a map held in a field of a shared struct. It is a yield point; and it is a race
 // witness: if this task proceeds to its access while another task is parked right before a
@@ -696,6 +699,17 @@ func Block(site, what string, pred func() bool) {
 	s.actStep++
 	s.now += time.Microsecond
 	s.logEvent("b", t, site)
+	if strings.HasPrefix(s.pauseSite, "b:") && strings.Contains(site, s.pauseSite[2:]) {
+		// RunToSite("b:<function>"): in front of a blocking operation (a Lock) of that function
+		s.pauseSiteN--
+		if s.pauseSiteN <= 0 {
+			s.pauseSite = ""
+			s.sitePaused = true
+			s.SiteTask = t
+			t.State = Runnable
+			s.park(t)
+		}
+	}
 	if s.PauseAt != 0 && s.Step >= s.PauseAt {
 		t.State = Runnable
 		s.park(t)
@@ -710,6 +724,10 @@ func Block(site, what string, pred func() bool) {
 				t.BlockOn = what
 				s.park(t)
 			}
+			// (a stale BlockOn would make a task that is later frozen by a "stalled goroutine"
+			// fault look as if it were still waiting for this lock)
+			t.pred = nil
+			t.BlockOn = ""
 		}
 		t.resetLoop()
 		return
